@@ -23,6 +23,10 @@ K_NEG = 'neg_has_neg_zero'
 K_MULZ = 'mul_has_neg_zero'
 K_ABS = 'abs_asymmetric_bound'
 K_OVL = 'bound_if_fits_overlap_drops_specials'
+K_SEL = 'exact_select_infinite_operand'
+K_WRAP = 'overlap_bounds_under_wrap'
+K_ZSET = 'zero_only_materialization_drops_specials'
+K_LE = 'le_finite_prec_unbounded_exp'
 
 
 # ---------------------------------------------------------------- tracing interpreter
@@ -290,7 +294,8 @@ def k_while(a0: fp.Real):
 
 def run_programs(ck, rng, thorough):
     import fpy2 as fp
-    from fpy2.analysis.format_infer import FormatInfer, FunctionFormat
+    from fpy2.analysis.format_infer import FormatInfer, FunctionFormat, SetFormat
+    from fpy2.analysis.format_infer.analysis import NEG_ZERO
     from fpy2.analysis.reaching_defs import AssignDef
     from fpy2.ast.fpyast import Neg, Mul, Abs, Var, Assign
     from fpy2.number import Float, RealFloat
@@ -363,6 +368,14 @@ def run_programs(ck, rng, thorough):
             v = c.round(0)
         return v
 
+    def holds_nonfinite(b):
+        from fpy2.number.format import Format
+        try:
+            return isinstance(b, Format) and (b.representable_in(Float(isinf=True)) or b.representable_in(Float(isinf=True, s=True))
+                                              or b.representable_in(Float(isnan=True)))
+        except Exception:  # noqa
+            return False
+
     def special(v):
         return isinstance(v, Float) and (v.isnan or v.isinf or (v.is_zero() and v.s))
 
@@ -396,11 +409,32 @@ def run_programs(ck, rng, thorough):
                     args = {'k_neg': [0], 'k_abs': [-128], 'k_mul': [-2, 0]}.get(nm, args)
                 interp = Tracer()
                 first = []
+                negzero_from = [None]
+
+                def mpfloat_involved(e, v, info=info, octx=octx):
+                    from fpy2.number.context.mp_float import MPFloatFormat
+                    try:
+                        c = info.ctx_use.find_scope_from_use(e).ctx if e is not None else None
+                    except Exception:  # noqa
+                        c = None
+                    return (isinstance(info.by_expr.get(e), MPFloatFormat) or isinstance(getattr(v, 'ctx', None), fp.MPFloatContext)
+                            or isinstance(c, fp.MPFloatContext))
+
+                def wrapped(e, v, info=info, octx=octx):
+                    try:
+                        c = info.ctx_use.find_scope_from_use(e).ctx
+                        c = c if isinstance(c, fp.Context) else octx
+                        return getattr(c, 'overflow', None) is fp.OV.WRAP and bool(v.overflow)
+                    except Exception:  # noqa
+                        return False
 
                 def scope_holds(e, v, info=info, octx=octx):
                     try:
                         c = info.ctx_use.find_scope_from_use(e).ctx
                         c = c if isinstance(c, fp.Context) else octx
+                    except Exception:  # noqa  (a Var is not a context-use site: the value was rounded where it was computed)
+                        c = getattr(v, 'ctx', None) or octx
+                    try:
                         return c.format().representable_in(v)
                     except Exception:  # noqa
                         return False
@@ -409,6 +443,9 @@ def run_programs(ck, rng, thorough):
                     nonlocal checks
                     if first:
                         return
+                    if isinstance(value, Float) and not value.isnan and not value.isinf and value.is_zero() and value.s \
+                            and type(e).__name__ in ('Neg', 'Mul'):
+                        negzero_from[0] = type(e).__name__      # provenance of the latest -0 (known has_neg_zero findings)
                     if e not in info.by_expr:
                         return
                     checks += 1
@@ -443,13 +480,29 @@ def run_programs(ck, rng, thorough):
                             scope_real = info.ctx_use.find_scope_from_use(e).ctx is fp.REAL
                         except Exception:  # noqa
                             scope_real = False
-                    if kind == 'Neg' and why == 'negzero':
+                    if why == 'negzero' and (kind == 'Neg' or (kind not in ('Neg', 'Mul') and negzero_from[0] == 'Neg')):
                         key = K_NEG
-                    elif kind == 'Mul' and why == 'negzero':
+                    elif why == 'negzero' and (kind == 'Mul' or (kind not in ('Neg', 'Mul') and negzero_from[0] == 'Mul')):
                         key = K_MULZ
-                    elif kind == 'Abs' and why == 'not representable' and not special(value):
+                    elif kind == 'Abs' and why in ('not representable', 'not in set') and not special(value):
                         key = K_ABS
-                    elif kind in ('Add', 'Sub', 'Mul', 'Neg', 'Abs', 'Round', 'Cast', 'Sum') and special(value) \
+                    elif kind in ('Min', 'Max') and not special(value) and why in ('not representable', 'not in set') \
+                            and any(holds_nonfinite(info.by_expr.get(a)) for a in e.args):
+                        # an operand that may be an infinity / NaN was allowed to bound the selection
+                        key = K_SEL
+                    elif special(value) and isinstance(info.by_expr.get(e), SetFormat) and \
+                            all(v == 0 or v == NEG_ZERO for v in info.by_expr[e].values):
+                        # the zero-only shortcut of _materialize_in_scope forgot the special values
+                        key = K_ZSET
+                    elif kind in ('Add', 'Sub', 'Mul', 'Neg', 'Abs', 'Round', 'Cast', 'Sum') and not special(value) \
+                            and why in ('not representable', 'not in set') and wrapped(e, value):
+                        # the value overflowed a WRAP context and landed outside the clipped interval
+                        key = K_WRAP
+                    elif not special(value) and why == 'not representable' and mpfloat_involved(e, value):
+                        # rounding into an MPFloatContext (finite precision, unbounded exponent) is reported an identity by
+                        # round_is_identity because AbstractFormat.__le__ skips the precision test (C14_le_sound_refuted)
+                        key = K_LE
+                    elif kind in ('Add', 'Sub', 'Mul', 'Neg', 'Abs', 'Round', 'Cast', 'Sum', 'Var') and special(value) \
                             and why in ('not representable', 'negzero') and scope_holds(e, value):
                         # the rounded operation yields an infinity (overflow), a NaN or a -0 the active
                         # context represents, but the inferred format has lost the special-value flags
